@@ -17,6 +17,8 @@ pub mod similarity;
 pub mod stats;
 pub mod term;
 pub mod utils;
+#[cfg(feature = "verif")]
+pub mod verif;
 
 pub use ontology::builder;
 pub use ontology::comparison;
